@@ -422,6 +422,13 @@ RecvTxSigs(e, T) ==
   /\ Conclude(e, [neg[e] EXCEPT !.rcvdSigs = TRUE])
   /\ Unch(Rest4)
 
+\* e holds everything needed to publish T: a negotiated candidate, or the peer's signatures are in and its own
+\* are ready (the scope is durably recorded) although the message carrying them has not left yet
+MayPublish(e, T) ==
+  \/ \E k \in cands[e] : k.tx = T
+  \/ /\ neg[e].st = "sign" /\ neg[e].tx = T /\ neg[e].rcvdSigs /\ neg[e].sentCS /\ neg[e].rcvdCS
+     /\ T \in DOMAIN mon[e].reneg /\ mon[e].reneg[T] <= mon[e].last /\ \A u \in mon[e].infl : u > mon[e].reneg[T]
+
 \* tx_abort: the negotiation is dropped (never once one's own tx_signatures are out); quiescence ends
 SendTxAbort(e) ==
   /\ Up(e)
@@ -438,7 +445,8 @@ RecvTxAbort(e) ==
   /\ Up(e)
   /\ G1(~neg[e].sentSigs)       \* the peer may not abort what this side has fully signed
   /\ neg' = [neg EXCEPT ![e] = [NoNeg EXCEPT !.abortOK = (neg[e].st # "none")]]
-  /\ qs' = [qs EXCEPT ![e] = NoQ]
+  \* (the echo of this side's own tx_abort ends nothing: a new stfu may already be out)
+  /\ qs' = [qs EXCEPT ![e] = IF neg[e].st # "none" THEN NoQ ELSE @]
   /\ Unch(<<cands>>) /\ Unch(Rest4)
 
 \* ------------------------------------------------------------ splice_locked
